@@ -48,11 +48,11 @@ STD_ENUMS = {
     'core::task::poll::Poll': {'0': 'Ready', '1': 'Pending'},
 }
 
-Store = namedtuple('Store', 'S P T V len0 own resched sched pend S0 pan pre acq0 act')
+Store = namedtuple('Store', 'S P T V len0 own resched sched pend S0 pan pre acq0 act pushed')
 
 
 def mk_store(T='N', P=None):
-    return Store(S=None, P=P, T=T, V=(), len0='?', own='?', resched=0, sched=0, pend=0, S0=None, pan=0, pre=None, acq0=None, act=0)
+    return Store(S=None, P=P, T=T, V=(), len0='?', own='?', resched=0, sched=0, pend=0, S0=None, pan=0, pre=None, acq0=None, act=0, pushed=0)
 
 
 def vget(st, l):
@@ -513,6 +513,26 @@ class Proto:
         return st._replace(V=tuple((l, ('qs', v[1], False) if (v and v[0] == 'qs' and v[2]) else v) for l, v in st.V))
 
     def _leave_region(self, st, fn=None, record=False):
+        """-> list of stores.  Predicates on the state that were computed inside the region but are branched on after it
+        (`let need = core.state == Idle; drop(core); if need {..}`) are materialised here: the store is split by their value."""
+        outs = [st]
+        if st.S is not None:
+            for l, v in st.V:
+                neg = bool(v) and v[0] == 'not'
+                pv = v[1] if neg else v
+                if pv and pv[0] == 'pred' and pv[1][0] == 'in':
+                    nxt = []
+                    for x in outs:
+                        yes = frozenset(a for a in x.S if a in pv[1][1])
+                        no = frozenset(a for a in x.S if a not in pv[1][1])
+                        if yes:
+                            nxt.append(vset(x._replace(S=yes), l, ('bool', 0 if neg else 1)))
+                        if no:
+                            nxt.append(vset(x._replace(S=no), l, ('bool', 1 if neg else 0)))
+                    outs = nxt
+        return [self._leave_one(x, fn, record) for x in outs]
+
+    def _leave_one(self, st, fn=None, record=False):
         if record and fn is not None and st.S is not None:
             enums = tuple(sorted(set(v[1] for l, v in st.V if v and v[0] == 'enum' and self._is_local_enum(fn, l))))
             self.events[('region_exit', self._evn(fn), '')].add((st.S, st.T, enums, st.len0, st.own, st.S0 if st.S0 is not None else st.S))
@@ -525,7 +545,11 @@ class Proto:
         sched = st.sched
         if fn is not None and fn.name.endswith('SchedulerCore::reschedule_queue') and st.S == frozenset(['WaitingForPoll']) and st.T == 'N':
             sched = 1   # a queue abandoned by its polling task must be offered to the pool
-        return st._replace(S=None, P=P, len0='?', own='?', S0=None, pan=pan, pre=pre, acq0=acq0, sched=sched)
+        resched = st.resched
+        if st.pushed and st.T == 'N' and st.S is not None and 'Idle' in st.S:
+            # a job was appended and the queue may be Idle with nobody obliged to run it: somebody must (re)schedule it
+            resched = 2
+        return st._replace(S=None, P=P, len0='?', own='?', S0=None, pan=pan, pre=pre, acq0=acq0, sched=sched, resched=resched, pushed=0)
 
     def _is_local_enum(self, fn, l):
         a = self.facts.adts.get(ty_head(fn.local_ty(l)))
@@ -605,7 +629,9 @@ class Proto:
             tgt_in = bool(core_guards & held.before.get((tgt, 0), frozenset())) if core_guards else False
             cur_in = x.S is not None
             if cur_in and not tgt_in:
-                x = self._leave_region(x, fn, record)
+                for y in self._leave_region(x, fn, record):
+                    yield tgt, y
+                continue
             elif not cur_in and tgt_in:
                 x = self._enter_region(x)
             yield tgt, x
@@ -615,7 +641,13 @@ class Proto:
             return stores
         if now:
             return [self._enter_region(x) if x.S is None else x for x in stores]
-        return [self._leave_region(x, fn, record) if x.S is not None else x for x in stores]
+        out = []
+        for x in stores:
+            if x.S is not None:
+                out.extend(self._leave_region(x, fn, record))
+            else:
+                out.append(x)
+        return out
 
     # -- statements -------------------------------------------------------------------------
     def _stmt(self, fn, bb, i, s, st, record):
@@ -773,8 +805,10 @@ class Proto:
             return
         exits.add((st.T, st.P if st.T == 'H' else None, ret))
         if record:
-            if st.resched:
+            if st.resched == 1:
                 self.viol.append(('TOK-resched', fn.name, 'owner wrote Idle without the queue-empty test and returns without calling reschedule_queue', fn.loc(bb)))
+            if st.resched == 2:
+                self.viol.append(('TOK-resched', fn.name, 'a job is appended while the queue may be Idle and the function returns without (re)scheduling the queue: nobody is obliged to run it', fn.loc(bb)))
             if st.sched:
                 self.viol.append(('TOK-pending', fn.name, 'queue marked Pending but not (pushed on the schedule and a thread asked) before returning', fn.loc(bb)))
             if st.pend:
@@ -1017,7 +1051,7 @@ class Proto:
         if name.endswith('::VecDeque::push_back') or name.endswith('::VecDeque::push_front'):
             e = fn.expr_of_operand(args[0])
             if self.is_queue_place_expr(e):
-                return done(st._replace(len0='N'), None)
+                return done(st._replace(len0='N', pushed=1 if name.endswith('push_back') else st.pushed), None)
             if e[0] == 'field' and e[2] == 'schedule' or 'VecDeque<alloc::sync::Arc<desync::scheduler::job_queue::JobQueue>>' in clean_ty(args[0].get('pl', {}).get('ty', '')):
                 if st.sched == 1 and name.endswith('push_back'):
                     return done(st._replace(sched=2), None)
